@@ -47,7 +47,7 @@ fn enumerate(prop: &dyn Property, bytes: &[u8], b: &EnumBudget) -> (usize, bool,
             // replay file: the program bytes, then the explicit-schedule selector, the bound and the path
             let s = st.borrow();
             let mut rb: Vec<u8> = bytes.iter().copied().chain(std::iter::repeat(0)).take(s.offset).collect();
-            rb.push(255); // selects the explicit bounded schedule source ((255 * 5) >> 8 == 4)
+            rb.push(200); // selects the explicit bounded schedule source ((200 * 6) >> 8 == 4)
             rb.push((s.bound * 64) as u8); // (b * 4) >> 8 == bound
             rb.extend(s.path.iter().take(s.depth).map(|p| p.0));
             failure = Some((sig, format!("{} ;; found by bounded enumeration (<= {} pre-emptions), schedule #{} of this program", detail, s.bound, runs), rb));
